@@ -59,6 +59,10 @@ Sample ==
                \/ E.totals.received < lastTotals.received \/ E.totals.errors < lastTotals.errors
          v10 == E.totals.xact # totX \/ E.totals.query # totQ
          v11 == p.sv_active # Cardinality({c \in conn : state[c] = "active"})
+         \* rows of SHOW CLIENTS that belong neither to a pool client nor to the admin connection taking the sample
+         v12 == E.stray_rows > 0
+         \* SHOW LISTS: free + used clients = the pool's clients + the admin connection
+         v13 == E.lists_clients # Cardinality(conn) + 1
      IN /\ Flag(v1, "client_row_without_client", [ghost |-> ghost, duplicate |-> E.duplicate_rows])
         /\ Flag(v2, "client_without_row", [missing |-> missing])
         /\ Flag(v3, "client_state_wrong", [clients |-> wrongState, shown |-> [c \in wrongState |-> rows[c].state],
@@ -72,7 +76,9 @@ Sample ==
         /\ Flag(v9, "total_decreased", [now |-> E.totals, before |-> lastTotals])
         /\ Flag(v10, "totals_wrong", [shown |-> E.totals, xact |-> totX, query |-> totQ, kinds |-> E.kinds])
         /\ Flag(v11, "active_servers_wrong", [pools |-> p, active_clients |-> Cardinality({c \in conn : state[c] = "active"})])
-        /\ seen' = seen \cup K({<<v1, "client_row_without_client">>, <<v2, "client_without_row">>, <<v3, "client_state_wrong">>,
+        /\ Flag(v12, "client_row_without_client", [stray_rows |-> E.stray_rows, kinds |-> E.kinds])
+        /\ Flag(v13 /\ ~v12 /\ ~v1 /\ ~v2, "lists_do_not_match_clients", [lists |-> E.lists_clients, connected |-> Cardinality(conn)])
+        /\ seen' = seen \cup K({<<v12, "client_row_without_client">>, <<v13, "lists_do_not_match_clients">>, <<v1, "client_row_without_client">>, <<v2, "client_without_row">>, <<v3, "client_state_wrong">>,
                                 <<v4, "query_count_wrong">>, <<v5, "transaction_count_wrong">>,
                                 <<v6, "pool_client_states_do_not_add_up">>, <<v7, "not_zero_after_everyone_left">>,
                                 <<v8, "server_rows_wrong">>, <<v9, "total_decreased">>, <<v10, "totals_wrong">>,
